@@ -12,6 +12,17 @@ UNITS = [
                   [dict(name="no_rounding_offset", where="body:disc_interpolate", rx=r" \+ 0\.5\)", repl=" + 1.5)")]),
 ]
 UNITS.append(D.wrapper_unit("c07_wrapper_forwarders"))
+SO3I_RULES = [(r"assert\(fabs\(norm\(static_cast<const StateType \*>\((?:from|to)\)\) - 1\.0\) < MAX_QUATERNION_NORM_ERROR\);", "", 0), (r"\barcLength\(", "ARCLEN(", 0),
+              (r"std::numeric_limits<double>::epsilon\(\)", "DBL_EPSILON", 0), (r"1\.0 / sin\(theta\)", "RECIP_SIN(theta)", 0), (r"(?<![\w.])sin\(", "SIN_(", 0),
+              (r"const auto \*(qs\d) = static_cast<const StateType \*>\((\w+)\);", r"const SO3State *\1 = \2;", 0), (r"auto \*qr = static_cast<StateType \*>\(state\);", "SO3State *qr = state;", 0),
+              (r"qs1->x \* qs2->x \+ qs1->y \* qs2->y \+ qs1->z \* qs2->z \+ qs1->w \* qs2->w", "DOT4(qs1, qs2)", 0),
+              (r"\(qs1->(\w) \* s0 \+ qs2->\1 \* s1\) \* d", r"MIX(qs1->\1, s0, qs2->\1, s1, d)", 0), (r"\bcopyState\(state, from\);", "COPY_STATE(state, from);", 0)]
+SO3I_SRC = [dict(name="so3_interpolate", file="src/ompl/base/spaces/src/SO3StateSpace.cpp", sig=r"void ompl::base::SO3StateSpace::interpolate\(const State \*from, const State \*to, const double t, State \*state\) const", rules=SO3I_RULES, loops={})]
+UNITS.append(dict(name="c07_so3_interpolate_paths", template="spaces/so3_interp.c", mode="plain", entry="h_so3_interpolate", sources=SO3I_SRC, flags=D.PFLAGS, level="proof", backend="cadical", timeout=300,
+                  functions=["SO3StateSpace::interpolate (path selection)"], canaries=[dict(name="guarded_by_t_instead_of_theta", where="body:so3_interpolate", rx=r"if \(theta > DBL_EPSILON\)", repl="if (t > DBL_EPSILON)")]))
+UNITS.append(dict(name="c07_so3_interpolate_alias", template="spaces/so3_interp.c", mode="plain", entry="h_so3_interpolate_alias", sources=SO3I_SRC, flags=D.PFLAGS, level="proof", backend="cadical", timeout=300,
+                  functions=["SO3StateSpace::interpolate (output aliasing from)"], canaries=[dict(name="copies_onto_itself", where="body:so3_interpolate", rx=r"if \(state != from\)", repl="if (1)")]))
+
 ASSUMPTIONS = D.FP_ASSUMPTIONS + ["input states in bounds / finite, 0 <= t <= 1"]
 TRUSTED = ["extraction rewrite table units/spaces_defs.py", "stubs units/spaces/fp_stubs.h", "CBMC 6.11 + kissat/cadical"]
 NOT_COVERED = ["alias safety of SO2/RealVector/Time interpolate as a solver obligation (comparing two bit-precise float evaluations did not finish in 20 min; checked by the native oracle only; Compound: each component called once with its own slots)", "t = 1 endpoint, re-parameterisation consistency and geodesic proportionality (exact-arithmetic laws; see known finding rv-overshoot for what rounding does at t = 1)",
